@@ -236,4 +236,54 @@ theorem sim2_setLink {t : Term.T} {e : Emu} {rows cols : Nat} (s2 : Sim2 t e row
         top := s2.sim.top, bottom := s2.sim.bottom, grid := s2.sim.grid }
     lc := s2.lc, savedP := s2.savedP, savedA := s2.savedA, smcup := s2.smcup, prim := s2.prim }
 
+/-! ### round 3: OSC 8 as a token of the reference terminal -/
+
+theorem cutSemi_of_split {s a b : List Nat} (h : splitSemi s = some (a, b)) : cutSemi s = (a, b, true) := by
+  unfold splitSemi at h
+  unfold cutSemi
+  cases hs : s.span (· ≠ 59) with
+  | mk x y =>
+    rw [hs] at h
+    cases y with
+    | nil => simp at h
+    | cons c r => simp at h; obtain ⟨rfl, rfl⟩ := h; rfl
+
+/-- **OSC 8** through the dispatcher, for EVERY payload the vocabulary maps to the token (`8;params;url`, any `params`
+    without `;`, any `url`, empty ones included) and either base64 verdict: the step succeeds and refines the reference's
+    `osc8` (the pen's hyperlink becomes `url`), provided the emulator's OSC 8 switch is on (the default). -/
+theorem osc8_step {t : Term.T} {e : Emu} {rows cols : Nat} (s2 : Sim2 t e rows cols) (d : List Nat) (info : OscInfo)
+    (P U : List Nat) (ho : e.osc8 = true) (h : osc8Tok d = some (.osc8 P U)) :
+    ∃ r, emuStep e (.osc d info) = .ok r ∧ Refines2 (Term.step t (.osc8 P U)) r.1 rows cols := by
+  unfold osc8Tok at h
+  cases h1 : splitSemi d with
+  | none => rw [h1] at h; simp at h
+  | some ab =>
+    obtain ⟨a, rest⟩ := ab
+    rw [h1] at h
+    by_cases ha : a = [56]
+    · subst ha
+      simp only at h
+      cases h2 : splitSemi rest with
+      | none => rw [h2] at h; simp at h
+      | some pu =>
+        obtain ⟨P', U'⟩ := pu
+        rw [h2] at h
+        simp only [Option.some.injEq, Term.Tok.osc8.injEq] at h
+        obtain ⟨rfl, rfl⟩ := h
+        have hstep : emuStep e (.osc d info) =
+            .ok ({ e with cur := { e.cur with st := { e.cur.st with link := U', linkParams := P' } } }, 0) := by
+          have ho' : osc Fixes.current e d info =
+              .ok ({ e with cur := { e.cur with st := { e.cur.st with link := U', linkParams := P' } } }, 0) := by
+            unfold osc
+            rw [cutSemi_of_split h1]
+            simp only [Bool.not_true, Bool.false_eq_true, if_false, ho, if_true]
+            rw [cutSemi_of_split h2]
+            simp
+          unfold emuStep emuStepF
+          exact ho'
+        exact ⟨_, hstep, _, List.mem_singleton.mpr rfl, sim2_setLink s2 P' U'⟩
+    · exfalso
+      revert h
+      split <;> simp_all
+
 end VaxisModel.Lemmas.EmuRefine
